@@ -70,6 +70,25 @@ Proof.
 Qed.
 Print Assumptions C08_positions_gocommand_refuted.
 
+(** Running time is *not* linear (finding C08-exponential-nested-begin; the functional model has no
+    cost semantics, so the statement is about which nested scans the outer loop starts). On
+    "BEGIN " x 8 the loop of [stmt] starts a fresh nested scanner on *each* of the 8 proper suffixes
+    "BEGIN " x j (j < 8): the nested scanner is replaced by one that fails at once on every input
+    (what the real one does on these inputs, after scanning them) except that it is [Panic] on the
+    suffix looked for. The same holds inside every nested scan, so the number of scans obeys
+    T(k) = 1 + T(0) + ... + T(k-1) = 2^k. Measured on the Go code: x20 1.5 s, x24 25 s. *)
+Definition begins (k : nat) : bytes := concat (repeat ([66;69;71;73;78;32]%N) k).
+Definition poisoned (target : bytes) (b : scanner) : res (scanner * option Stmt) :=
+  if bytes_eqb (input b) target then Panic else Err (mkErr EEofCompound 0 0).
+Theorem C08_linear_time_refuted : forall j, (j < 8)%nat ->
+  stmt_loop opts_sqlite (poisoned (begins j)) 100
+            (mkScanner (begins 8) (begins 8) 0 0 0 delimiter [] false) 0 0 = Panic.
+Proof.
+  intros j H. do 8 (destruct j as [|j]; [vm_compute; reflexivity|]). exfalso.
+  repeat (apply le_S_n in H). inversion H.
+Qed.
+Print Assumptions C08_linear_time_refuted.
+
 (** the linear fuel is a depth bound, not a step count: on k unterminated BEGINs every BEGIN
     re-scans the rest of the input in a nested scanner (2^k nested scans in the Go code too);
     the model still terminates within [fuel_of]. *)
